@@ -59,6 +59,12 @@ def gen_rule_cfg(rng: random.Random, case: Case, rules=("mes", "greedy", "phragm
 def fix_loads(cfg, built):
     """initial loads are per profile entry: with a multiprofile they must be given per distinct ballot;
     to keep both presentations the same election, equal ballots get equal loads"""
+    if cfg.get("loads_direct") is not None and not built.multi:
+        # a LIST profile takes one initial load per ballot of the list: identical ballots may start with different loads
+        # (round 8, C05-r8A: identical ballots of a plain profile merged into one voter)
+        cfg["loads_expanded"] = list(cfg["loads_direct"])
+        cfg["loads"] = list(cfg["loads_direct"])
+        return
     lp = cfg.get("loads_per_voter")
     if lp is None:
         return
